@@ -1,5 +1,6 @@
 """C15 — what a relay's client encodes is what the next daemon's listener decodes."""
 import math
+import pickle
 import struct
 
 from vlib import gen
@@ -176,6 +177,27 @@ def run_config(cfg, res):
       segmentations.append(proto.cut(data, pos))
       step = 13 if len(data) < 200000 else 65521
       segmentations.append([data[i:i + step] for i in range(0, len(data), step)])
+    # the relay goes away in the middle of its stream (orderly close): what had arrived completely is ingested, nothing else
+    if len(data) > 3 and queued:
+      for _ in range(2):
+        k = r.randrange(1, len(data))
+        if cfg['proto'] == 'line':
+          done = data[:k].count(b'\n')
+        else:
+          done, pos = 0, 0          # frame boundaries from the stream itself
+          while pos + 4 <= len(data):
+            ln_ = struct.unpack('!I', data[pos:pos + 4])[0]
+            if pos + 4 + ln_ > k:
+              break
+            done += len(pickle.loads(data[pos + 4:pos + 4 + ln_]))
+            pos += 4 + ln_
+        o = proto.tcp_session(listener, [data[:k]], rec)
+        res.count('listener_sessions_cut_short')
+        got = o['got']
+        if o['exc'] is not None or len(got) != done or any(g[0] != q[0] for g, q in zip(got, queued)):
+          res.violation('%s/sender-closed-mid-stream' % cfg['proto'], 'first %d of %d bytes delivered, then an orderly close: %d datapoints complete, listener ingested %r (exc %r)' % (
+            k, len(data), done, got[-2:], o['exc']), dict(data=data[:400].hex(), k=k))
+          break
     sessions = [(segs, None) for segs in segmentations]
     if len(queued) >= 2:
       # the next daemon's flow control pauses its listeners while one of these segments is being read
